@@ -110,9 +110,10 @@ class RedisStorage(QueueStorage):
 
     def set_recipients_delivered(self, id, rcpt_indexes):
         current = self.redis.hget(self._get_key(id), 'delivered_indexes')
-        new_indexes = list(rcpt_indexes)
+        new_indexes = self._delivered_round(rcpt_indexes)
         if current:
-            new_indexes = list(pickle.loads(current)) + new_indexes
+            new_indexes = self._delivered_log(pickle.loads(current)) + \
+                new_indexes
         self.redis.hset(self._get_key(id), 'delivered_indexes',
                         pickle.dumps(new_indexes, pickle.HIGHEST_PROTOCOL))
         log.update_meta(id, delivered_indexes=rcpt_indexes)
@@ -134,7 +135,7 @@ class RedisStorage(QueueStorage):
         del envelope_raw
         if delivered_indexes_raw:
             delivered_indexes = pickle.loads(delivered_indexes_raw)
-            self._remove_delivered_rcpts(envelope, delivered_indexes)
+            self._replay_delivered_rcpts(envelope, delivered_indexes)
         return envelope, int(attempts or 0)
 
     def remove(self, id):
